@@ -6,7 +6,7 @@ func TestSelfTestMsgID(t *testing.T) {
 	if why := SelfTestMsgID(); why != "" {
 		t.Fatal(why)
 	}
-	if UpperUnderscore("setName") != "SET_NAME" || UpperUnderscore("labsUrl") != "LABS_URL" || UpperUnderscore("x1") != "X_1" || UpperUnderscore("_a__b_") != "A__B" {
+	if UpperUnderscore("setName") != "SET_NAME" || UpperUnderscore("labsUrl") != "LABS_URL" || UpperUnderscore("x1") != "X_1" || UpperUnderscore("_a__b_") != "A_B" || UpperUnderscore("first___name") != "FIRST_NAME" || UpperUnderscore("isAtEnd") != "IS_AT_END" || UpperUnderscore("HTTPServer2x") != "HTTP_SERVER_2_X" {
 		t.Fatal(UpperUnderscore("setName"), UpperUnderscore("labsUrl"), UpperUnderscore("x1"), UpperUnderscore("_a__b_"))
 	}
 }
